@@ -245,6 +245,49 @@ func entries(nStates, nBiomes int) []entry {
 			var v []pk.UUID
 			return func(src io.Reader) error { _, err := pk.Ary[pk.VarLong]{Ary: &v}.ReadFrom(src); return err }
 		}),
+		// the three remaining count types of Ary (unsigned ones cannot be negative; a Long count does not fit an int
+		// on every platform, see wideCounts)
+		aryEntry("Ary[UnsignedByte]ofString", func(r *vm.Rand) ([]byte, []prefix) {
+			return wbuf(pk.Ary[pk.UnsignedByte]{Ary: []pk.String{"a", pk.String(str(r))}}), []prefix{{1, "string-length"}}
+		}, func() func(io.Reader) error {
+			var v []pk.String
+			return func(src io.Reader) error { _, err := pk.Ary[pk.UnsignedByte]{Ary: &v}.ReadFrom(src); return err }
+		}),
+		aryEntry("Ary[UnsignedShort]ofVarInt", func(r *vm.Rand) ([]byte, []prefix) {
+			return wbuf(pk.Ary[pk.UnsignedShort]{Ary: []pk.VarInt{1, pk.VarInt(r.Int64B()), 3}}), nil
+		}, func() func(io.Reader) error {
+			var v []pk.VarInt
+			return func(src io.Reader) error { _, err := pk.Ary[pk.UnsignedShort]{Ary: &v}.ReadFrom(src); return err }
+		}),
+		aryEntry("Ary[Long]ofByteArray", func(r *vm.Rand) ([]byte, []prefix) {
+			return wbuf(pk.Ary[pk.Long]{Ary: []pk.ByteArray{{1, 2}, r.Bytes(r.Intn(9))}}), []prefix{{8, "byte-array-length"}}
+		}, func() func(io.Reader) error {
+			var v []pk.ByteArray
+			return func(src io.Reader) error { _, err := pk.Ary[pk.Long]{Ary: &v}.ReadFrom(src); return err }
+		}),
+		// OptionDecoder (a copy of Option's reader for decode-only types) and the function forms of Opt.Has / Opt.Field
+		aryEntry("Tuple(OptionDecoder,Opt(func forms))", func(r *vm.Rand) ([]byte, []prefix) {
+			has := r.Bool()
+			fs := []pk.FieldEncoder{pk.Boolean(true), pk.String(str(r)), pk.Boolean(has)}
+			if has {
+				fs = append(fs, pk.ByteArray(r.Bytes(r.Intn(20))), pk.String(str(r)))
+			}
+			fs = append(fs, pk.Boolean(true), chat.Text(str(r)))
+			return wbuf(fs...), []prefix{{1, "string-length"}}
+		}, func() func(io.Reader) error {
+			var od pk.OptionDecoder[pk.String, *pk.String]
+			var om pk.OptionDecoder[chat.Message, *chat.Message]
+			var has pk.Boolean
+			var ba pk.ByteArray
+			var s pk.String
+			return func(src io.Reader) error {
+				_, err := pk.Tuple{&od, &has,
+					pk.Opt{Has: func() bool { return bool(has) }, Field: func() pk.FieldDecoder { return &ba }},
+					pk.Opt{Has: &has, Field: func() pk.Field { return &s }},
+					&om}.ReadFrom(src)
+				return err
+			}
+		}),
 		aryEntry("Tuple(Option,Opt,NBTField)", func(r *vm.Rand) ([]byte, []prefix) {
 			return wbuf(pk.Option[pk.String, *pk.String]{Has: true, Val: "s"}, pk.Boolean(true), pk.ByteArray{1, 2, 3}, pk.NBT(map[string]any{"k": "v", "n": int32(r.Intn(9))})), nil
 		}, func() func(io.Reader) error {
@@ -287,6 +330,43 @@ func entries(nStates, nBiomes int) []entry {
 				_, err := pc.ReadFrom(src)
 				return err
 			}),
+		// the bits-per-entry byte is the peer's: every value of a class selects the same form (blocks: 1..4 linear at
+		// 4 bits, 9..255 direct; biomes: 4..255 direct), the writer only ever sends one of them
+		lenientEntry(recvEntry("PaletteContainer[blocks].ReadFrom(other bits byte of the same form)", func(r *vm.Rand) ([]byte, []prefix) {
+			for {
+				w, ps := genPal(r, blocksKind, 4096)
+				switch {
+				case w[0] >= 1 && w[0] <= 4:
+					w[0] = byte(r.Range(1, 3))
+					coverHook("gen.palette.blocks.bits-byte-below-4")
+				case w[0] > 8:
+					w[0] = []byte{9, 14, 16, 32, 64, 127, 128, 255}[r.Intn(8)]
+					coverHook("gen.palette.blocks.bits-byte-above-direct")
+				default:
+					continue
+				}
+				return w, ps
+			}
+		}, func() *level.PaletteContainer[level.BlocksState] { return level.NewStatesPaletteContainer(4096, 0) },
+			func(pc *level.PaletteContainer[level.BlocksState], src io.Reader) error {
+				_, err := pc.ReadFrom(src)
+				return err
+			})),
+		lenientEntry(recvEntry("PaletteContainer[biomes].ReadFrom(other bits byte of the same form)", func(r *vm.Rand) ([]byte, []prefix) {
+			for {
+				w, ps := genPal(r, biomesKind, 64)
+				if w[0] < 4 {
+					continue
+				}
+				w[0] = []byte{4, 5, 7, 8, 64, 128, 255}[r.Intn(7)]
+				coverHook("gen.palette.biomes.bits-byte-other-direct")
+				return w, ps
+			}
+		}, func() *level.PaletteContainer[level.BiomesState] { return level.NewBiomesPaletteContainer(64, 0) },
+			func(pc *level.PaletteContainer[level.BiomesState], src io.Reader) error {
+				_, err := pc.ReadFrom(src)
+				return err
+			})),
 		recvEntry("Section.ReadFrom", func(r *vm.Rand) ([]byte, []prefix) { c := buildChunk(r, 1); return wbuf(&c.Sections[0]), nil },
 			func() *level.Chunk { return level.EmptyChunk(1) },
 			func(c *level.Chunk, src io.Reader) error { _, err := c.Sections[0].ReadFrom(src); return err }),
@@ -338,7 +418,19 @@ func entries(nStates, nBiomes int) []entry {
 			return wbuf(pk.Long(r.Int64B()), pk.ByteArray(r.Bytes(r.Intn(200))), pk.ByteArray(r.Bytes(256))), []prefix{{8, "byte-array-length"}}
 		})),
 		fieldEntry[sign.PackedMessageBody]("sign.PackedMessageBody.ReadFrom", func(r *vm.Rand) ([]byte, []prefix) {
-			return wbuf(pk.String(str(r)), pk.Long(1), pk.Long(2), pk.VarInt(1), pk.VarInt(5)), []prefix{{0, "string-length"}}
+			// last-seen entries: cache ids, and full 256-byte signatures under the marker the reader looks for (-1)
+			// as well as the one the writer sends (0)
+			fs := []pk.FieldEncoder{pk.String(str(r)), pk.Long(1), pk.Long(2)}
+			switch r.Intn(3) {
+			case 0:
+				fs = append(fs, pk.VarInt(1), pk.VarInt(5))
+			case 1:
+				fs = append(fs, pk.VarInt(3), pk.VarInt(-1), pk.PluginMessageData(r.Bytes(256)), pk.VarInt(7), pk.VarInt(-1), pk.PluginMessageData(r.Bytes(256)))
+				coverHook("gen.packed-message-body.full-signatures")
+			default:
+				fs = append(fs, pk.VarInt(1), pk.VarInt(0), pk.PluginMessageData(r.Bytes(256)))
+			}
+			return wbuf(fs...), []prefix{{0, "string-length"}}
 		}),
 		fieldEntry[sign.HistoryMessage]("sign.HistoryMessage.ReadFrom", func(r *vm.Rand) ([]byte, []prefix) {
 			return wbuf(pk.UUID{1}, pk.ByteArray(r.Bytes(20))), []prefix{{16, "byte-array-length"}}
@@ -351,7 +443,7 @@ func entries(nStates, nBiomes int) []entry {
 	)
 	for _, secs := range []int{1, 4, 24} {
 		secs := secs
-		es = append(es, recvEntry(fmt.Sprintf("Chunk.ReadFrom(%d sections)", secs), func(r *vm.Rand) ([]byte, []prefix) { return wbuf(buildChunk(r, secs)), nil },
+		es = append(es, recvEntry(fmt.Sprintf("Chunk.ReadFrom(%d sections)", secs), func(r *vm.Rand) ([]byte, []prefix) { return genChunkWithPrefixes(r, secs) },
 			func() *level.Chunk { return level.EmptyChunk(secs) }, func(c *level.Chunk, src io.Reader) error { _, err := c.ReadFrom(src); return err }))
 		es = append(es, recvEntry(fmt.Sprintf("Chunk.PutData(%d sections)", secs), func(r *vm.Rand) ([]byte, []prefix) { d, _ := buildChunk(r, secs).Data(); return d, nil },
 			func() *level.Chunk { return level.EmptyChunk(secs) }, func(c *level.Chunk, src io.Reader) error {
@@ -427,7 +519,7 @@ func exec(c *vm.Ctx, e *entry, in []byte, origin string) (err error, panicked bo
 // fixedPrefix: decoders whose length prefix is a fixed-width integer (Short/Int/Long/VarLong): writing a
 // VarInt over it or flipping its bits declares gigabytes of elements, which only tests the allocator.
 func fixedPrefix(name string) bool {
-	return strings.HasPrefix(name, "Ary[Short]") || strings.HasPrefix(name, "Ary[Int]") || strings.HasPrefix(name, "Ary[VarLong]") || strings.HasPrefix(name, "Ary[Byte]")
+	return strings.HasPrefix(name, "Ary[") && !strings.HasPrefix(name, "Ary[VarInt]")
 }
 
 // carriesNBT: decoders whose input embeds NBT. NBT lengths are 4-byte big-endian fields, so a bit flip, a
@@ -490,7 +582,7 @@ func fuzzEntry(c *vm.Ctx, r *vm.Rand, e *entry) {
 	c.Cover("mut.truncation")
 	if fixedPrefix(e.name) {
 		// targeted: the fixed-width prefix set to small hostile values (negative, zero, a little too many)
-		w := map[string]int{"Ary[Short]": 2, "Ary[Int]": 4, "Ary[VarLong]": 1, "Ary[Byte]": 1}[e.name[:strings.Index(e.name, "]")+1]]
+		w := map[string]int{"Ary[Short]": 2, "Ary[Int]": 4, "Ary[VarLong]": 1, "Ary[Byte]": 1, "Ary[UnsignedByte]": 1, "Ary[UnsignedShort]": 2, "Ary[Long]": 8}[e.name[:strings.Index(e.name, "]")+1]]
 		for _, fill := range [][]byte{bytes.Repeat([]byte{0xff}, w), make([]byte, w), append(make([]byte, w-1), 100)} {
 			in := append(append([]byte{}, fill...), valid[w:]...)
 			exec(c, e, in, "fixed-width-prefix")
@@ -838,6 +930,15 @@ func inconsistentSizes(c *vm.Ctx, r *vm.Rand) {
 			}}
 			err, pan := exec(c, &e, in, fmt.Sprintf("sizes: heightmaps=%d/%d longs (expected %d)", lm, lw, expected))
 			if !pan {
+				// a height map that is present, not empty and of another size than the chunk's own: an error
+				wrong := (lm > 0 && lm != expected) || (lw > 0 && lw != expected)
+				switch {
+				case err == nil && wrong:
+					c.Violation("decode/inconsistent-size-accepted/height-map", fmt.Sprintf("a chunk of %d sections (height maps of %d longs) took height maps of %d and %d longs without error", secs, expected, lm, lw),
+						map[string]any{"sections": secs, "longs_expected": expected, "motion_blocking_longs": lm, "world_surface_longs": lw, "input_hex": vm.Hex(in[:min(len(in), 2048)])})
+				case wrong:
+					c.Cover("sizes.heightmap.wrong-size-rejected")
+				}
 				if err != nil {
 					c.Cover("sizes.heightmap.error")
 				} else {
@@ -855,6 +956,12 @@ func inconsistentSizes(c *vm.Ctx, r *vm.Rand) {
 		}
 		vals := make([]int, length)
 		nv := []int{1, 2, 5, 8}[r.Intn(4)]
+		if r.Intn(6) == 0 { // the hash palette and the direct form (8 KiB of indices: every sixth time)
+			nv = 20
+			if blocks {
+				nv = []int{40, 300}[r.Intn(2)]
+			}
+		}
 		for i := range vals {
 			vals[i] = r.Intn(nv)
 		}
@@ -883,7 +990,17 @@ func inconsistentSizes(c *vm.Ctx, r *vm.Rand) {
 				run = func(in []byte) error { _, err := level.NewStatesPaletteContainer(4096, 0).ReadFrom(rd(in)); return err }
 			}
 			e := entry{name: name, run: run}
-			exec(c, &e, in, fmt.Sprintf("sizes: data-array=%d longs (expected %d, width %d)", n, nl, info.Width))
+			err, pan := exec(c, &e, in, fmt.Sprintf("sizes: data-array=%d longs (expected %d, width %d)", n, nl, info.Width))
+			// with a width, the number of longs is determined: any other count is inconsistent with the bits byte
+			// (a single-valued container has no indices: what it does with longs that follow is not judged)
+			switch {
+			case pan || info.Width == 0 || n == nl:
+			case err == nil:
+				c.Violation("decode/inconsistent-size-accepted/palette-data-array", fmt.Sprintf("a container of %d entries at %d bits per entry (%d longs) took a data array of %d longs without error", length, info.Width, nl, n),
+					map[string]any{"decoder": name, "entries": length, "bits_per_entry": info.Width, "longs_expected": nl, "longs_sent": n, "input_hex": vm.Hex(in[:min(len(in), 2048)])})
+			default:
+				c.Cover("sizes.palette-data-array.wrong-size-rejected")
+			}
 		}
 	}
 	c.Cover("sizes.palette-data-array")
@@ -1029,10 +1146,16 @@ func checkCommands(c *vm.Ctx, r *vm.Rand, exhaustive bool) {
 
 // ---- live peers
 
-type pipeDialer struct{ serve func(conn net.Conn) }
+type pipeDialer struct {
+	serve  func(conn net.Conn)
+	client *net.Conn // when set: receives the client's end of the pipe
+}
 
 func (d pipeDialer) DialMCContext(ctx context.Context, addr string) (*mcnet.Conn, error) {
 	a, b := net.Pipe()
+	if d.client != nil {
+		*d.client = a
+	}
 	go d.serve(b)
 	return mcnet.WrapConn(a), nil
 }
@@ -1122,7 +1245,7 @@ func hostileServer(c *vm.Ctx, r *vm.Rand) {
 	go func() {
 		defer close(done)
 		c.Guard("live/bot", wit, func() {
-			if err := cl.JoinServerWithOptions("hostile.test:25565", bot.JoinOptions{MCDialer: pipeDialer{serve}}); err != nil {
+			if err := cl.JoinServerWithOptions("hostile.test:25565", bot.JoinOptions{MCDialer: pipeDialer{serve: serve}}); err != nil {
 				return
 			}
 			defer cl.Close()
@@ -1237,6 +1360,9 @@ func run(c *vm.Ctx) {
 			if strings.HasPrefix(e.name, "Chunk.") && strings.Contains(e.name, "24") && i%8 != 0 {
 				continue // big inputs: every 8th round
 			}
+			if strings.Contains(e.name, "other bits byte") && i%2 != 0 {
+				continue // 4..8 KiB encodings of forms the two entries above start from in every round
+			}
 			t0 := vm.CPUSeconds()
 			fuzzEntry(c, r, e)
 			perEntry[e.name] += vm.CPUSeconds() - t0
@@ -1266,12 +1392,32 @@ func run(c *vm.Ctx) {
 	if c.Shard == 2%c.NShards {
 		tinyCompressedFrames(c)
 	}
-	section("huge+big")
+	wideCounts(c)
+	if c.Shard == 3%c.NShards {
+		jsonNesting(c)
+	}
+	if c.Shard == 4%c.NShards {
+		usedBigDestinations(c)
+	}
+	section("huge+big+wide+json-nesting+used-big")
 	sr := c.Rand("sizes")
 	for i := 0; i < c.Scale(400, 8000); i++ {
 		inconsistentSizes(c, sr)
 	}
+	bsr := c.Rand("wrong-sized-bit-storage")
+	for i := 0; i < c.Scale(400, 8000); i++ {
+		wrongSizedBitStorage(c, bsr)
+	}
 	section("sizes")
+	ccr := c.Rand("concurrent")
+	concurrentDecoders(c, es, ccr, c.Pick(2, 8))
+	for i := 0; i < c.Scale(40, 800); i++ {
+		concurrentCommands(c, ccr)
+	}
+	for i := 0; i < c.Scale(24, 480); i++ {
+		concurrentFrames(c, ccr)
+	}
+	section("concurrent")
 	wr := c.Rand("wrong-data-length")
 	for i := 0; i < c.Scale(200, 4000); i++ {
 		wrongDataLength(c, wr)
